@@ -1,4 +1,5 @@
 import FloVerif.Driver.C05
+import FloVerif.Driver.C08
 import FloVerif.Driver.C15
 import FloVerif.Driver.C19
 import FloVerif.Driver.C01
@@ -22,6 +23,8 @@ def dispatch (prop op stream : String) (ins outs : List String) : List C05.Out :
   | "C06" => C06.handle op stream ins outs
   | "C04" => C04.handle op stream ins outs
   | "C01" | "C11" | "C12" => (C01.handle op ins outs).map fun o =>
+      { field := o.field, cmp := if o.ok then .same 0 else .diff o.msg, fbit := none }
+  | "C08" => (C08.handle op ins outs).map fun o =>
       { field := o.field, cmp := if o.ok then .same 0 else .diff o.msg, fbit := none }
   | "C17" => (C17.handle op ins outs).map fun o =>
       { field := o.field, cmp := if o.ok then .same 0 else .diff o.msg, fbit := none }
